@@ -98,6 +98,9 @@ thread_local std::unique_ptr<qsbr_per_thread>
 [[nodiscard]] qsbr_state::type
 qsbr_state::atomic_fetch_dec_threads_in_previous_epoch(
     std::atomic<qsbr_state::type>& word) noexcept {
+#ifdef UNODB_DETAIL_VERIF_HOOKS
+  unodb::verif::sched(unodb::verif::QSBR_STATE_FETCH_SUB, &word);
+#endif
   const auto old_word = word.fetch_sub(1, std::memory_order_acq_rel);
 
   UNODB_DETAIL_ASSERT(get_threads_in_previous_epoch(old_word) > 0);
@@ -171,9 +174,15 @@ void add_to_orphan_list(
   auto* const list_node_ptr = orphan_list_node.release();
 
   list_node_ptr->requests = std::move(requests);
+#ifdef UNODB_DETAIL_VERIF_HOOKS
+  unodb::verif::sched(unodb::verif::ORPHAN_LOAD, &orphan_list);
+#endif
   list_node_ptr->next = orphan_list.load(std::memory_order_acquire);
 
   while (true) {
+#ifdef UNODB_DETAIL_VERIF_HOOKS
+    unodb::verif::sched(unodb::verif::ORPHAN_CAS, &orphan_list);
+#endif
     if (UNODB_DETAIL_LIKELY(orphan_list.compare_exchange_weak(
             list_node_ptr->next, list_node_ptr, std::memory_order_acq_rel,
             std::memory_order_acquire)))
@@ -190,6 +199,9 @@ void add_to_orphan_list(
 [[nodiscard]] detail::dealloc_vector_list_node* take_orphan_list(
     std::atomic<detail::dealloc_vector_list_node*>& orphan_list
     UNODB_DETAIL_LIFETIMEBOUND) noexcept {
+#ifdef UNODB_DETAIL_VERIF_HOOKS
+  unodb::verif::sched(unodb::verif::ORPHAN_XCHG, &orphan_list);
+#endif
   return orphan_list.exchange(nullptr, std::memory_order_acq_rel);
 }
 
@@ -246,6 +258,9 @@ qsbr_epoch qsbr::register_thread() noexcept {
       const auto new_state =
           qsbr_state::inc_thread_count_and_threads_in_previous_epoch(old_state);
 
+#ifdef UNODB_DETAIL_VERIF_HOOKS
+      unodb::verif::sched(unodb::verif::QSBR_STATE_CAS, &state);
+#endif
       if (UNODB_DETAIL_LIKELY(state.compare_exchange_weak(
               old_state, new_state, std::memory_order_acq_rel,
               std::memory_order_acquire)))
@@ -264,6 +279,9 @@ qsbr_epoch qsbr::register_thread() noexcept {
     // Epoch change in progress - try to bump the thread count only
     const auto new_state = qsbr_state::inc_thread_count(old_state);
 
+#ifdef UNODB_DETAIL_VERIF_HOOKS
+    unodb::verif::sched(unodb::verif::QSBR_STATE_CAS, &state);
+#endif
     if (UNODB_DETAIL_LIKELY(state.compare_exchange_weak(
             old_state, new_state, std::memory_order_acq_rel,
             std::memory_order_acquire))) {
@@ -275,6 +293,9 @@ qsbr_epoch qsbr::register_thread() noexcept {
         old_state = get_state();
         const auto new_epoch = qsbr_state::get_epoch(old_state);
         if (new_epoch != old_epoch) return new_epoch;
+#ifdef UNODB_DETAIL_VERIF_HOOKS
+        unodb::verif::sched(unodb::verif::SPIN, &state);
+#endif
       }
     }
   }
@@ -290,6 +311,9 @@ void qsbr::unregister_thread(std::uint64_t quiescent_states_since_epoch_change,
 #endif
 {
   bool epoch_change_prepared = false;
+#ifdef UNODB_DETAIL_VERIF_HOOKS
+  unodb::verif::sched(unodb::verif::QSBR_STATE_LOAD, &state);
+#endif
   auto old_state = state.load(std::memory_order_acquire);
 
   while (true) {
@@ -302,6 +326,9 @@ void qsbr::unregister_thread(std::uint64_t quiescent_states_since_epoch_change,
 
       // Epoch change in progress - try to decrement the thread count only
       const auto new_state = qsbr_state::dec_thread_count(old_state);
+#ifdef UNODB_DETAIL_VERIF_HOOKS
+      unodb::verif::sched(unodb::verif::QSBR_STATE_CAS, &state);
+#endif
       if (UNODB_DETAIL_LIKELY(state.compare_exchange_weak(
               old_state, new_state, std::memory_order_acq_rel,
               std::memory_order_acquire))) {
@@ -340,9 +367,16 @@ void qsbr::unregister_thread(std::uint64_t quiescent_states_since_epoch_change,
         // with subsequent epoch changes.
         epoch_change_barrier_and_handle_orphans(old_single_thread_mode);
         epoch_change_prepared = true;
+#ifdef UNODB_DETAIL_VERIF_HOOKS
+        unodb::verif::event(unodb::verif::EV_ORPHANS_AGED_IN_UNREGISTER,
+                            &state);
+#endif
       }
     }
 
+#ifdef UNODB_DETAIL_VERIF_HOOKS
+    unodb::verif::sched(unodb::verif::QSBR_STATE_CAS, &state);
+#endif
     if (UNODB_DETAIL_LIKELY(state.compare_exchange_weak(
             old_state, new_state, std::memory_order_acq_rel,
             std::memory_order_acquire))) {
@@ -350,6 +384,9 @@ void qsbr::unregister_thread(std::uint64_t quiescent_states_since_epoch_change,
       // second-to-last thread quit before, advancing the epoch.
       qsbr_thread.advance_last_seen_epoch(old_single_thread_mode, old_epoch);
       if (UNODB_DETAIL_UNLIKELY(advance_epoch)) {
+#ifdef UNODB_DETAIL_VERIF_HOOKS
+        unodb::verif::event(unodb::verif::EV_EPOCH_ADVANCED, &state);
+#endif
 #ifdef UNODB_DETAIL_WITH_STATS
         bump_epoch_change_count();
 #endif  // UNODB_DETAIL_WITH_STATS
@@ -367,6 +404,11 @@ void qsbr::unregister_thread(std::uint64_t quiescent_states_since_epoch_change,
 
       return;
     }
+#ifdef UNODB_DETAIL_VERIF_HOOKS
+    if (epoch_change_prepared)
+      unodb::verif::event(unodb::verif::EV_UNREGISTER_CAS_LOST_AFTER_AGING,
+                          &state);
+#endif
   }
 }
 
@@ -479,6 +521,9 @@ void qsbr::epoch_change_barrier_and_handle_orphans(
 
   if (UNODB_DETAIL_LIKELY(!single_thread_mode)) {
     detail::dealloc_vector_list_node* new_previous_requests = nullptr;
+#ifdef UNODB_DETAIL_VERIF_HOOKS
+    unodb::verif::sched(unodb::verif::ORPHAN_CAS, &orphaned_previous_interval_dealloc_requests);
+#endif
     if (UNODB_DETAIL_UNLIKELY(
             !orphaned_previous_interval_dealloc_requests
                  .compare_exchange_strong(
@@ -491,6 +536,9 @@ void qsbr::epoch_change_barrier_and_handle_orphans(
       // previous batch.
       while (new_previous_requests->next != nullptr)
         new_previous_requests = new_previous_requests->next;
+#ifdef UNODB_DETAIL_VERIF_HOOKS
+      unodb::verif::sched(unodb::verif::ORPHAN_TAIL_STORE, new_previous_requests);
+#endif
       new_previous_requests->next = orphaned_current_requests;
     }
   } else {
@@ -502,12 +550,18 @@ qsbr_epoch qsbr::change_epoch(qsbr_epoch current_global_epoch,
                               bool single_thread_mode) noexcept {
   epoch_change_barrier_and_handle_orphans(single_thread_mode);
 
+#ifdef UNODB_DETAIL_VERIF_HOOKS
+  unodb::verif::sched(unodb::verif::QSBR_STATE_LOAD, &state);
+#endif
   auto old_state = state.load(std::memory_order_acquire);
   while (true) {
     UNODB_DETAIL_ASSERT(current_global_epoch ==
                         qsbr_state::get_epoch(old_state));
 
     const auto new_state = qsbr_state::inc_epoch_reset_previous(old_state);
+#ifdef UNODB_DETAIL_VERIF_HOOKS
+    unodb::verif::sched(unodb::verif::QSBR_STATE_CAS, &state);
+#endif
     if (UNODB_DETAIL_LIKELY(state.compare_exchange_weak(
             old_state, new_state, std::memory_order_acq_rel,
             std::memory_order_acquire))) {
@@ -517,6 +571,9 @@ qsbr_epoch qsbr::change_epoch(qsbr_epoch current_global_epoch,
 #ifdef UNODB_DETAIL_WITH_STATS
       bump_epoch_change_count();
 #endif  // UNODB_DETAIL_WITH_STATS
+#ifdef UNODB_DETAIL_VERIF_HOOKS
+      unodb::verif::event(unodb::verif::EV_EPOCH_ADVANCED, &state);
+#endif
       return current_global_epoch.advance();
     }
 
